@@ -6,7 +6,6 @@ import (
 	"encoding/hex"
 	"fmt"
 	"io"
-	"log"
 
 	"github.com/libsv/go-bk/crypto"
 
@@ -330,7 +329,25 @@ func (tx *Tx) Clone() *Tx {
 	// Ignore err as byte slice passed in is created from valid tx
 	clone, err := NewTxFromBytes(tx.Bytes())
 	if err != nil {
-		log.Fatal(err)
+		// the serialisation cannot be read back (e.g. an input whose previous
+		// txid is not 32 bytes long): copy field by field instead of aborting
+		// the process
+		clone = &Tx{Version: tx.Version, LockTime: tx.LockTime}
+		for _, in := range tx.Inputs {
+			c := *in
+			c.previousTxID = append([]byte(nil), in.previousTxID...)
+			if in.UnlockingScript != nil {
+				c.UnlockingScript = bscript.NewFromBytes(append([]byte(nil), *in.UnlockingScript...))
+			}
+			clone.Inputs = append(clone.Inputs, &c)
+		}
+		for _, out := range tx.Outputs {
+			c := *out
+			if out.LockingScript != nil {
+				c.LockingScript = bscript.NewFromBytes(append([]byte(nil), *out.LockingScript...))
+			}
+			clone.Outputs = append(clone.Outputs, &c)
+		}
 	}
 
 	for i, input := range tx.Inputs {
